@@ -463,6 +463,80 @@ def dceOK (dead : List Val) : List MInstr → List MInstr → Bool
     if i = j ∧ i.operands.all (fun o => !dead.contains o) then dceOK dead is js
     else i.removable && dceOK (i.results ++ dead) is (j :: js)
 
+/-! ### … and for `passNopInstElimination` + alias resolution + dead-code elimination together
+
+`optOK` extends `dceOK`: a shift `r = Ishl/Ushr/Sshr x, c` whose amount `c` is defined by an `Iconst` with
+`c mod 2^64 mod width = 0` (the rule of `passNopInstElimination`) and whose operand `x` has the declared type of the
+shift may be deleted with the ALIAS `r ↦ x` (resolved); a kept instruction must equal the original with its operands
+resolved through the aliases (`resolveArgumentAlias`), and must not use a dead value.  Every definition must be fresh
+(strict SSA), which the checker verifies itself. -/
+
+def MInstr.mapOperands (g : Val → Val) : MInstr → MInstr
+  | .base i => .base (i.mapOperands g)
+  | .extload op r ty p off => .extload op r ty (g p) off
+
+/-- the checker's state: values defined so far, their declared types (of single-result instructions and block
+parameters), the constants, the aliases (in resolved form), the dead values -/
+structure VSt where
+  seen : List Val
+  tys : List (Val × Ty)
+  consts : List (Val × Ty × Nat)
+  al : List (Val × Val)
+  dead : List Val
+deriving Repr
+
+def MInstr.isCall : MInstr → Bool
+  | .base (.call ..) => true
+  | _ => false
+
+/-- record the definitions of `i` -/
+def VSt.define (s : VSt) (i : MInstr) : VSt :=
+  { s with
+    seen := i.results ++ s.seen,
+    tys := (if i.isCall then [] else i.typedResults) ++ s.tys,
+    consts := (match i with | .base (.iconst r ty c) => [(r, ty, c)] | _ => []) ++ s.consts }
+
+def lookupConst : List (Val × Ty × Nat) → Val → Option (Ty × Nat)
+  | [], _ => none
+  | (k, e) :: rest, v => if k = v then some e else lookupConst rest v
+
+/-- the alias a no-op shift gets: its result and the resolved shifted operand -/
+def nopAlias (s : VSt) : MInstr → Option (Val × Val)
+  | .base (.bin op r ty x c) =>
+    if op = .ishl ∨ op = .ushr ∨ op = .sshr then
+      match lookupConst s.consts c with
+      | some (_, cv) =>
+        if cv % 2 ^ 64 % ty.bits = 0 ∧ (x, ty) ∈ s.tys ∧ res s.al x ∉ s.dead then some (r, res s.al x) else none
+      | none => none
+    else none
+  | _ => none
+
+def optOK (s : VSt) : List MInstr → List MInstr → Bool
+  | [], [] => true
+  | [], _ :: _ => false
+  | i :: is, js =>
+    i.results.all (fun r => !s.seen.contains r) &&
+    (match js with
+     | j :: js' =>
+       if i.mapOperands (res s.al) = j ∧ (i.mapOperands (res s.al)).operands.all (fun o => !s.dead.contains o) then
+         optOK (s.define i) is js'
+       else
+         match nopAlias s i with
+         | some a => optOK { s.define i with al := a :: s.al } is js
+         | none => i.removable && optOK { s.define i with dead := i.results ++ s.dead } is js
+     | [] =>
+       match nopAlias s i with
+       | some a => optOK { s.define i with al := a :: s.al } is []
+       | none => i.removable && optOK { s.define i with dead := i.results ++ s.dead } is [])
+
+/-- the checker's initial state: the block parameters are defined -/
+def VSt.init (params : List (Val × Ty)) : VSt :=
+  { seen := params.map (·.1), tys := params, consts := [], al := [], dead := [] }
+
+/-- `g'` is accepted as the result of the passes on `g` -/
+def optValid (g g' : MFunc) : Bool :=
+  g.params == g'.params && (g.params.map (·.1)).Nodup && optOK (VSt.init g.params) g.instrs g'.instrs
+
 /-- the SSA outcome `o` refines the outcome `sp` of the reference semantics (outcome and final linear memory): the
 same result values, or the trap code of the same trap kind; no calls; and the final flat memory still embeds the
 final linear memory (so its part `[base, base+len)` IS the specification's final memory, and the module context is
